@@ -74,7 +74,25 @@ def main():
         for res in ex.map(lambda p: one(p, a), todo):
             if res:
                 rows.append(res)
-    json.dump(rows, open(os.path.join(VERIF, "seeded", "RESULTS.json"), "w"), indent=1)
+    # merge into the stored results: a partial run updates only the seeds it looked at; a run without --confirm keeps the stored confirmation
+    rp = os.path.join(VERIF, "seeded", "RESULTS.json")
+    try:
+        stored = {r["name"]: r for r in json.load(open(rp))}
+    except (FileNotFoundError, ValueError):
+        stored = {}
+    for r in rows:
+        old = stored.get(r["name"], {})
+        merged = dict(old)
+        checks = dict(old.get("checks", {}))
+        checks.update(r.get("checks", {}))
+        merged.update(r)
+        merged["checks"] = checks
+        stored[r["name"]] = merged
+    existing = {os.path.basename(os.path.dirname(x)) for x in seeds}
+    out = [stored[k] for k in sorted(stored, key=lambda n: (n.split("-")[0], int(n.split("-")[1]))) if k in existing]
+    tmp = rp + ".tmp"
+    json.dump(out, open(tmp, "w"), indent=1)
+    os.replace(tmp, rp)
     missed = [r["name"] for r in rows if r["checks"].get(r["property"], {}).get("exit") != 1]
     print(f"{len(rows)} seeded changes, {len(rows) - len(missed)} detected by the check of their property, missed: {missed}")
 
